@@ -70,3 +70,37 @@ Definition fd_step (p : FileDataPdu) (o : fd_hop) : FileDataPdu * res (list Z) :
   | FPack => (p, fd_pack p)
   | FMaxSeg n => (p, do r <- get_max_file_seg_len (h_conf (fd_hdr p)) n (fp_meta q); Ok [r])
   end.
+
+(* The PDU and the PduConfig object of the caller it was built from.  FileDataPdu.__init__ works on
+   copy.copy(pdu_conf): a shallow copy, so the three UnsignedByteField objects are shared between
+   the caller's configuration and the PDU's until one side gets another object assigned; a value
+   assigned to a shared field through the PDU is seen through the caller's configuration too. *)
+Record fworld := { fw_pdu : FileDataPdu; fw_caller : PduConfig;
+                   fw_sh_src : bool; fw_sh_dst : bool; fw_sh_seq : bool }.
+
+Definition fw_init (p : FileDataPdu) (caller : PduConfig) : fworld :=
+  {| fw_pdu := p; fw_caller := caller; fw_sh_src := true; fw_sh_dst := true; fw_sh_seq := true |}.
+
+(* operations that put another byte-field object into the PDU's configuration *)
+Definition hdr_op_detaches (o : hdr_op) (k : Z) : bool :=
+  match o with
+  | HSetIds _ _ _ _ => (k =? 0) || (k =? 1)
+  | HSetSeq _ _ => k =? 2
+  | HConfField w _ _ => k =? w
+  | HReplaceConf _ => true
+  | _ => false
+  end.
+
+Definition fw_step (w : fworld) (o : fd_hop) : fworld * res (list Z) :=
+  let '(p', out) := fd_step (fw_pdu w) o in
+  let ok := match out with Ok _ => true | Err _ => false end in
+  let det k := match o with FHdr ho => ok && hdr_op_detaches ho k | _ => false end in
+  let c' := h_conf (fd_hdr p') in
+  let s0 := fw_sh_src w && negb (det 0) in
+  let s1 := fw_sh_dst w && negb (det 1) in
+  let s2 := fw_sh_seq w && negb (det 2) in
+  let c0 := fw_caller w in
+  let c1 := if s0 then conf_set_src c0 (cf_src c') else c0 in
+  let c2 := if s1 then conf_set_dst c1 (cf_dst c') else c1 in
+  let c3 := if s2 then conf_set_seq c2 (cf_seq c') else c2 in
+  ({| fw_pdu := p'; fw_caller := c3; fw_sh_src := s0; fw_sh_dst := s1; fw_sh_seq := s2 |}, out).
